@@ -9,7 +9,7 @@ from . import expr as _e
 # ghost variables written by methods of abstract objects: a loop whose body contains a call of that name havocs them
 GHOST_METHODS = {
     "set_epoch": ["g_announced"], "collate": ["g_ncollate"], "default_collate": ["g_ndc"],
-    "scale_strength": ["g_scaled", "g_scaled_f", "g_nscaled"], "set_rng": ["g_rng", "g_rng_set"],
+    "scale_strength": ["g_scaled", "g_scaled_f", "g_nscaled"], "set_rng": ["g_rng", "g_rng_set", "g_rng_key"],
     "worker_init_fn": ["g_winit", "g_worker_init_fn", "g_last_worker_init_fn"],
     "_worker_init_fn": ["g_winit", "g_worker_init_fn"], "dispose": ["g_dispose", "g_last_dispose"],
 }
@@ -324,7 +324,11 @@ class AbsTransform(VAbs):
             return VFunc("member.scale_strength", f)
         if name == "set_rng":
             def f(args, kwargs, s, e):
-                self._record(s, "g_rng", args[0] if isinstance(args[0], VVal) else as_val(args[0]))
+                r = args[0]
+                if isinstance(r, (VVal, VRef, VClass)):
+                    self._record(s, "g_rng", as_val(r))
+                if hasattr(r, "keyterm"):
+                    self._record(s, "g_rng_key", VInt(r.keyterm()))
                 self._record(s, "g_rng_set", VBool(True))
                 return self
             return VFunc("member.set_rng", f)
